@@ -20,6 +20,7 @@ pub fn run(line: &str) -> String {
     let steps: Vec<&str> = rest.split('|').map(|s| s.trim()).filter(|s| !s.is_empty()).collect();
     let (srv_sock, peer) = pair();
     let peer_fd = peer.as_raw_fd();
+    let mut peer = Some(peer);
     let rec = Rec::new();
     let shared = rec.sh.clone();
     let backend = Arc::new(Mutex::new(rec));
@@ -40,6 +41,9 @@ pub fn run(line: &str) -> String {
         let nfds: usize = toks[2][1..].parse().unwrap();
         let hout = HOut::parse(kv(&toks, "h").unwrap_or("ok"));
         let close_after = toks.contains(&"close");
+        // `rst`: the peer closes its socket completely while data the server sent is still unread in its queue: the
+        // server's next read past what is queued ends with ECONNRESET instead of end-of-stream
+        let rst_after = toks.contains(&"rst");
         // fresh objects
         let mut fds = Vec::new();
         {
@@ -78,7 +82,12 @@ pub fn run(line: &str) -> String {
                 write_seg(i);
             }
             if close_after {
-                shutdown_wr(&peer);
+                shutdown_wr(peer.as_ref().unwrap());
+            }
+            if rst_after {
+                use std::io::Write;
+                let _ = (&srv_sock).write_all(&[0x55]);
+                peer.take();
             }
         }
         // run handle_request on a helper thread with a watchdog
@@ -122,7 +131,12 @@ pub fn run(line: &str) -> String {
                 std::thread::sleep(Duration::from_micros(300));
             }
             if close_after {
-                shutdown_wr(&peer);
+                shutdown_wr(peer.as_ref().unwrap());
+            }
+            if rst_after {
+                use std::io::Write;
+                let _ = (&srv_sock).write_all(&[0x55]);
+                peer.take();
             }
         }
         for fd in fds.iter().chain(body_fds.iter()) {
@@ -173,9 +187,15 @@ pub fn run(line: &str) -> String {
                 "blocked".to_string()
             }
         };
-        set_nonblocking(peer_fd, true);
-        let (out, ofds, _eof) = drain(peer_fd);
-        set_nonblocking(peer_fd, false);
+        let (out, ofds, _eof) = if peer.is_some() {
+            set_nonblocking(peer_fd, true);
+            let d = drain(peer_fd);
+            set_nonblocking(peer_fd, false);
+            d
+        } else {
+            dead = true;
+            (Vec::new(), Vec::new(), true)
+        };
         let n = ofds.len();
         for fd in ofds {
             close(fd);
